@@ -776,7 +776,11 @@ class Template:
         variables = dict(*args, **kwargs)
         ctx = _Context(self.environment, variables)
         out: list[str] = []
-        self._exec(self.body, ctx, out)
+        try:
+            self._exec(self.body, ctx, out)
+        except StopIteration as e:
+            # Jinja2 renders through a generator, so a StopIteration escaping a filter surfaces as RuntimeError (PEP 479)
+            raise RuntimeError("generator raised StopIteration") from e
         return "".join(out)
 
     # -- statements
